@@ -93,7 +93,24 @@ def _lock():
     return fd
 
 
+def assemble_coqproject():
+    """_CoqProject = header + the file lists in coq/project.d/*.list (one owner
+    per list file, order = sorted list names, then lines)."""
+    import glob
+    lines = ["-Q theories Pcfg", "-Q gen PcfgGen", "-Q Props PcfgProps"]
+    for lf in sorted(glob.glob(os.path.join(COQ, "project.d", "*.list"))):
+        for l in open(lf):
+            l = l.strip()
+            if l and not l.startswith("#") and l not in lines:
+                lines.append(l)
+    txt = "\n".join(lines) + "\n"
+    p = os.path.join(COQ, "_CoqProject")
+    if not os.path.exists(p) or open(p).read() != txt:
+        open(p, "w").write(txt)
+
+
 def coqproject_files():
+    assemble_coqproject()
     out = []
     for line in open(os.path.join(COQ, "_CoqProject")):
         line = line.strip()
@@ -152,6 +169,7 @@ def build(targets=None, timeout=3000):
     Returns (ok, log)."""
     fd = _lock()
     try:
+        assemble_coqproject()
         mk = os.path.join(COQ, "Makefile.coq")
         proj = os.path.join(COQ, "_CoqProject")
         if (not os.path.exists(mk)) or os.path.getmtime(mk) < os.path.getmtime(proj):
